@@ -1191,6 +1191,306 @@ theorem papp_list_ref (k : Nat) (x : Value) (hk : (k : Int) ≤ 2147483647) :
     fun _ _ => PApp.car
 
 end procs
+@[simp] theorem truthy_bool (c : Bool) : (Value.bool c).truthy = c := by cases c <;> rfl
+
+section procs2
+variable (b : Nat)
+
+/-- `(last-pair x)` -/
+theorem papp_last_pair (x : Value) : PApp b (libProc "last-pair" b) [x] (lastPairS x) := by
+  have test : ∀ (x : Value) ρ, PEval b ρ (paramDefs ⟨["x"], none⟩ [x]) (ca "pair?" [ca "cdr" [sy "x"]])
+      ((cdrS x).bind fun v => .ok (.bool (isPair v))) := fun x ρ =>
+    PEval.call1 (k := fun v => .ok (.bool (isPair v))) (lkB .isPair) (by rfl)
+      (PEval.call1 (lkB .cdr) (by rfl) (PEval.var (by rfl)) fun _ _ => PApp.cdr) fun _ _ => PApp.isPair
+  have nonpair : ∀ x, isPair x = false → PApp b (libProc "last-pair" b) [x] (.error typeErr) := by
+    intro x hx
+    have hc : cdrS x = .error typeErr := by cases x <;> first | rfl | simp [isPair] at hx
+    rw [libProc_last_pair]
+    refine PApp.closure (by rfl) fun ρ => ?_
+    refine PTail.cond (rt := .error typeErr) ((test x ρ).congr (by rw [hc]; rfl))
+      (fun tv h => by cases h) (fun tv h => by cases h) (fun er h => by cases h; rfl)
+  induction x with
+  | pair a d _ ihd =>
+    rw [libProc_last_pair]
+    refine PApp.closure (by rfl) fun ρ => ?_
+    refine PTail.cond (rt := .ok (.bool (isPair d))) (test (.pair a d) ρ)
+      (fun tv h ht => ?_) (fun tv h ht => ?_) (fun er h => by cases h)
+    · cases h
+      refine PTail.congr (PTail.call1 (k := lastPairS) (lkP 23) (procArity_libProc (i := 23) rfl)
+        (PEval.call1 (lkB .cdr) (by rfl) (PEval.var (by rfl)) fun _ _ => PApp.cdr)
+        fun v hv => by cases hv; exact ihd) ?_
+      cases d <;> first | rfl | simp [isPair, Value.truthy] at ht
+    · cases h
+      refine PTail.congr (PTail.value (by intros; simp) (by intros; simp) (PEval.var (by rfl))) ?_
+      cases d <;> first | rfl | simp [isPair, Value.truthy] at ht
+  | _ => exact nonpair _ rfl
+
+/-- `(list? x)` -/
+theorem papp_list_pred (x : Value) : PApp b (libProc "list?" b) [x] (.ok (.bool (isProperList x))) := by
+  have test1 : ∀ (x : Value) ρ, PEval b ρ (paramDefs ⟨["x"], none⟩ [x]) (ca "eq?" [sy "x", q0]) (.ok (.bool (isNil x))) := by
+    intro x ρ
+    refine (PEval.call2 (k := fun v₁ v₂ => .ok (.bool (Prim.eqv v₁ v₂))) (lkB .eq) (by rfl)
+      (PEval.var (by rfl)) PEval.nil fun _ _ _ _ => PApp.eq).congr ?_
+    simp [Except.bind, eqv_nil]
+  have test2 : ∀ (x : Value) ρ, PEval b ρ (paramDefs ⟨["x"], none⟩ [x]) (ca "pair?" [sy "x"]) (.ok (.bool (isPair x))) := by
+    intro x ρ
+    exact PEval.call1 (k := fun v => .ok (.bool (isPair v))) (lkB .isPair) (by rfl) (PEval.var (by rfl)) fun _ _ => PApp.isPair
+  have lit : ∀ (x : Value) ρ (c : Bool), PTail b ρ (paramDefs ⟨["x"], none⟩ [x]) (pr (.bool c)) (.ok (.bool c)) :=
+    fun x ρ c => PTail.value (by intros; simp) (by intros; simp) (PEval.prim (by rfl))
+  have other : ∀ x, isPair x = false → isNil x = false → PApp b (libProc "list?" b) [x] (.ok (.bool false)) := by
+    intro x hp hn
+    rw [libProc_list_pred]
+    refine PApp.closure (by rfl) fun ρ => ?_
+    refine PTail.cond (test1 x ρ) (fun tv h ht => by cases h; simp [hn, Value.truthy] at ht) (fun tv h _ => ?_)
+      (fun er h => by cases h)
+    refine PTail.cond (test2 x ρ) (fun tv h ht => by cases h; simp [hp, Value.truthy] at ht) (fun tv h _ => ?_)
+      (fun er h => by cases h)
+    exact lit x ρ false
+  induction x with
+  | nil =>
+    rw [libProc_list_pred]
+    refine PApp.closure (by rfl) fun ρ => ?_
+    refine PTail.cond (test1 .nil ρ) (fun tv h _ => ?_) (fun tv h ht => by cases h; simp [isNil, Value.truthy] at ht)
+      (fun er h => by cases h)
+    exact lit _ ρ true
+  | pair a d _ ihd =>
+    rw [libProc_list_pred]
+    refine PApp.closure (by rfl) fun ρ => ?_
+    refine PTail.cond (test1 (.pair a d) ρ) (fun tv h ht => by cases h; simp [isNil, Value.truthy] at ht) (fun tv h _ => ?_)
+      (fun er h => by cases h)
+    refine PTail.cond (test2 (.pair a d) ρ) (fun tv h _ => ?_) (fun tv h ht => by cases h; simp [isPair, Value.truthy] at ht)
+      (fun er h => by cases h)
+    have test3 : PEval b ρ (paramDefs ⟨["x"], none⟩ [.pair a d]) (ca "list?" [ca "cdr" [sy "x"]])
+        (.ok (.bool (isProperList d))) :=
+      PEval.congr (PEval.call1 (k := fun v => .ok (.bool (isProperList v))) (lkP 29) (procArity_libProc (i := 29) rfl)
+        (PEval.call1 (lkB .cdr) (by rfl) (PEval.var (by rfl)) fun _ _ => PApp.cdr)
+        fun v hv => by cases hv; exact ihd) rfl
+    refine PTail.cond test3 (fun tv h ht => ?_) (fun tv h ht => ?_) (fun er h => by cases h)
+    · cases h
+      refine PTail.congr (lit _ ρ true) ?_
+      rw [truthy_bool] at ht
+      simp [isProperList, ht]
+    · cases h
+      refine PTail.congr (lit _ ρ false) ?_
+      rw [truthy_bool] at ht
+      simp [isProperList, ht]
+  | _ => exact other _ rfl rfl
+
+end procs2
+section procs3
+variable (b : Nat)
+
+/-- `(memq obj lst)` -/
+theorem papp_memq (obj lst : Value) : PApp b (libProc "memq" b) [obj, lst] (memS obj lst) := by
+  have test1 : ∀ (lst : Value) ρ, PEval b ρ (paramDefs ⟨["obj", "lst"], none⟩ [obj, lst]) (ca "null?" [sy "lst"])
+      (.ok (.bool (isNil lst))) := fun lst ρ =>
+    PEval.call1 (k := fun v => .ok (.bool (isNil v))) (lkP 14) (procArity_libProc (i := 14) rfl)
+      (PEval.var (by rfl)) fun v _ => papp_null b v
+  have test2 : ∀ (lst : Value) ρ, PEval b ρ (paramDefs ⟨["obj", "lst"], none⟩ [obj, lst])
+      (ca "eq?" [sy "obj", ca "car" [sy "lst"]]) ((carS lst).bind fun a => .ok (.bool (Prim.eqv obj a))) := fun lst ρ =>
+    PEval.congr (PEval.call2 (k := fun v₁ v₂ => .ok (.bool (Prim.eqv v₁ v₂))) (lkB .eq) (by rfl) (PEval.var (by rfl))
+      (PEval.call1 (lkB .car) (by rfl) (PEval.var (by rfl)) fun _ _ => PApp.car) fun _ _ _ _ => PApp.eq) rfl
+  have other : ∀ lst, isPair lst = false → isNil lst = false → PApp b (libProc "memq" b) [obj, lst] (.error typeErr) := by
+    intro lst hp hn
+    have hc : carS lst = .error typeErr := by cases lst <;> first | rfl | simp [isPair] at hp
+    rw [libProc_memq]
+    refine PApp.closure (by rfl) fun ρ => ?_
+    refine PTail.cond (test1 lst ρ) (fun tv h ht => by cases h; simp [hn] at ht) (fun tv h _ => ?_)
+      (fun er h => by cases h)
+    refine PTail.cond (rt := .error typeErr) ((test2 lst ρ).congr (by rw [hc]; rfl))
+      (fun tv h => by cases h) (fun tv h => by cases h) (fun er h => by cases h; rfl)
+  induction lst with
+  | nil =>
+    rw [libProc_memq]
+    refine PApp.closure (by rfl) fun ρ => ?_
+    refine PTail.cond (test1 .nil ρ) (fun tv h _ => ?_) (fun tv h ht => by cases h; simp [isNil] at ht)
+      (fun er h => by cases h)
+    exact PTail.thunk fun ρ' => PTail.value (by intros; simp) (by intros; simp) (PEval.prim (by rfl))
+  | pair a d _ ihd =>
+    rw [libProc_memq]
+    refine PApp.closure (by rfl) fun ρ => ?_
+    refine PTail.cond (test1 (.pair a d) ρ) (fun tv h ht => by cases h; simp [isNil] at ht) (fun tv h _ => ?_)
+      (fun er h => by cases h)
+    refine PTail.cond (rt := .ok (.bool (Prim.eqv obj a))) (test2 (.pair a d) ρ) (fun tv h ht => ?_) (fun tv h ht => ?_)
+      (fun er h => by cases h)
+    · cases h
+      rw [truthy_bool] at ht
+      refine PTail.congr (PTail.thunk fun ρ' => PTail.value (by intros; simp) (by intros; simp) (PEval.var (by rfl))) ?_
+      simp [memS, ht]
+    · cases h
+      rw [truthy_bool] at ht
+      refine PTail.congr (PTail.thunk fun ρ' => PTail.call2 (k := fun v₁ v₂ => memS v₁ v₂) (lkP 26)
+        (procArity_libProc (i := 26) rfl) (PEval.var (by rfl))
+        (PEval.call1 (lkB .cdr) (by rfl) (PEval.var (by rfl)) fun _ _ => PApp.cdr)
+        fun v₁ v₂ h₁ h₂ => by cases h₁; cases h₂; exact ihd) ?_
+      simp [memS, ht, cdrS, Except.bind]
+  | _ => exact other _ rfl rfl
+
+/-- `(memv obj lst)` -/
+theorem papp_memv (obj lst : Value) : PApp b (libProc "memv" b) [obj, lst] (memS obj lst) := by
+  have test1 : ∀ (lst : Value) ρ, PEval b ρ (paramDefs ⟨["obj", "lst"], none⟩ [obj, lst]) (ca "null?" [sy "lst"])
+      (.ok (.bool (isNil lst))) := fun lst ρ =>
+    PEval.call1 (k := fun v => .ok (.bool (isNil v))) (lkP 14) (procArity_libProc (i := 14) rfl)
+      (PEval.var (by rfl)) fun v _ => papp_null b v
+  have test2 : ∀ (lst : Value) ρ, PEval b ρ (paramDefs ⟨["obj", "lst"], none⟩ [obj, lst])
+      (ca "eqv?" [sy "obj", ca "car" [sy "lst"]]) ((carS lst).bind fun a => .ok (.bool (Prim.eqv obj a))) := fun lst ρ =>
+    PEval.congr (PEval.call2 (k := fun v₁ v₂ => .ok (.bool (Prim.eqv v₁ v₂))) (lkB .eqv) (by rfl) (PEval.var (by rfl))
+      (PEval.call1 (lkB .car) (by rfl) (PEval.var (by rfl)) fun _ _ => PApp.car) fun _ _ _ _ => PApp.eqv) rfl
+  have other : ∀ lst, isPair lst = false → isNil lst = false → PApp b (libProc "memv" b) [obj, lst] (.error typeErr) := by
+    intro lst hp hn
+    have hc : carS lst = .error typeErr := by cases lst <;> first | rfl | simp [isPair] at hp
+    rw [libProc_memv]
+    refine PApp.closure (by rfl) fun ρ => ?_
+    refine PTail.cond (test1 lst ρ) (fun tv h ht => by cases h; simp [hn] at ht) (fun tv h _ => ?_)
+      (fun er h => by cases h)
+    refine PTail.cond (rt := .error typeErr) ((test2 lst ρ).congr (by rw [hc]; rfl))
+      (fun tv h => by cases h) (fun tv h => by cases h) (fun er h => by cases h; rfl)
+  induction lst with
+  | nil =>
+    rw [libProc_memv]
+    refine PApp.closure (by rfl) fun ρ => ?_
+    refine PTail.cond (test1 .nil ρ) (fun tv h _ => ?_) (fun tv h ht => by cases h; simp [isNil] at ht)
+      (fun er h => by cases h)
+    exact PTail.thunk fun ρ' => PTail.value (by intros; simp) (by intros; simp) (PEval.prim (by rfl))
+  | pair a d _ ihd =>
+    rw [libProc_memv]
+    refine PApp.closure (by rfl) fun ρ => ?_
+    refine PTail.cond (test1 (.pair a d) ρ) (fun tv h ht => by cases h; simp [isNil] at ht) (fun tv h _ => ?_)
+      (fun er h => by cases h)
+    refine PTail.cond (rt := .ok (.bool (Prim.eqv obj a))) (test2 (.pair a d) ρ) (fun tv h ht => ?_) (fun tv h ht => ?_)
+      (fun er h => by cases h)
+    · cases h
+      rw [truthy_bool] at ht
+      refine PTail.congr (PTail.thunk fun ρ' => PTail.value (by intros; simp) (by intros; simp) (PEval.var (by rfl))) ?_
+      simp [memS, ht]
+    · cases h
+      rw [truthy_bool] at ht
+      refine PTail.congr (PTail.thunk fun ρ' => PTail.call2 (k := fun v₁ v₂ => memS v₁ v₂) (lkP 27)
+        (procArity_libProc (i := 27) rfl) (PEval.var (by rfl))
+        (PEval.call1 (lkB .cdr) (by rfl) (PEval.var (by rfl)) fun _ _ => PApp.cdr)
+        fun v₁ v₂ h₁ h₂ => by cases h₁; cases h₂; exact ihd) ?_
+      simp [memS, ht, cdrS, Except.bind]
+  | _ => exact other _ rfl rfl
+
+
+/-- `(equal? x y)` -/
+theorem papp_equal (x : Value) : ∀ y : Value, PApp b (libProc "equal?" b) [x, y] (.ok (.bool (equalS x y))) := by
+  have testx : ∀ (x y : Value) ρ, PEval b ρ (paramDefs ⟨["x", "y"], none⟩ [x, y]) (ca "pair?" [sy "x"])
+      (.ok (.bool (isPair x))) := fun x y ρ =>
+    PEval.call1 (k := fun v => .ok (.bool (isPair v))) (lkB .isPair) (by rfl) (PEval.var (by rfl)) fun _ _ => PApp.isPair
+  have testy : ∀ (x y : Value) ρ, PEval b ρ (paramDefs ⟨["x", "y"], none⟩ [x, y]) (ca "pair?" [sy "y"])
+      (.ok (.bool (isPair y))) := fun x y ρ =>
+    PEval.call1 (k := fun v => .ok (.bool (isPair v))) (lkB .isPair) (by rfl) (PEval.var (by rfl)) fun _ _ => PApp.isPair
+  have lit : ∀ (x y : Value) ρ (c : Bool), PTail b ρ (paramDefs ⟨["x", "y"], none⟩ [x, y]) (pr (.bool c)) (.ok (.bool c)) :=
+    fun x y ρ c => PTail.value (by intros; simp) (by intros; simp) (PEval.prim (by rfl))
+  have atom : ∀ x y, isPair x = false → PApp b (libProc "equal?" b) [x, y] (.ok (.bool (!isPair y && Prim.eqv x y))) := by
+    intro x y hx
+    rw [libProc_equal_pred]
+    refine PApp.closure (by rfl) fun ρ => ?_
+    refine PTail.cond (testx x y ρ) (fun tv h ht => by cases h; simp [hx] at ht) (fun tv h _ => ?_) (fun er h => by cases h)
+    have testn : PEval b ρ (paramDefs ⟨["x", "y"], none⟩ [x, y]) (ca "not" [ca "pair?" [sy "y"]])
+        (.ok (.bool (!isPair y))) :=
+      PEval.congr (PEval.call1 (k := fun v => .ok (.bool (!v.truthy))) (lkB .not) (by rfl) (testy x y ρ)
+        fun _ _ => PApp.not) (by simp [Except.bind])
+    refine PTail.cond testn (fun tv h ht => ?_) (fun tv h ht => ?_) (fun er h => by cases h)
+    · cases h
+      rw [truthy_bool] at ht
+      refine PTail.congr (PTail.call2 (k := fun v₁ v₂ => .ok (.bool (Prim.eqv v₁ v₂))) (lkB .eqv) (by rfl)
+        (PEval.var (by rfl)) (PEval.var (by rfl)) fun _ _ _ _ => PApp.eqv) ?_
+      simp [ht, Except.bind]
+    · cases h
+      rw [truthy_bool] at ht
+      refine PTail.congr (lit x y ρ false) ?_
+      simp [ht]
+  induction x with
+  | pair a d iha ihd =>
+    intro y
+    rw [libProc_equal_pred]
+    refine PApp.closure (by rfl) fun ρ => ?_
+    refine PTail.cond (testx (.pair a d) y ρ) (fun tv h _ => ?_) (fun tv h ht => by cases h; simp [isPair] at ht)
+      (fun er h => by cases h)
+    refine PTail.cond (testy (.pair a d) y ρ) (fun tv h ht => ?_) (fun tv h ht => ?_) (fun er h => by cases h)
+    · cases h
+      rw [truthy_bool] at ht
+      cases y with
+      | pair a' d' =>
+        have testc : PEval b ρ (paramDefs ⟨["x", "y"], none⟩ [.pair a d, .pair a' d'])
+            (ca "equal?" [ca "car" [sy "x"], ca "car" [sy "y"]]) (.ok (.bool (equalS a a'))) :=
+          PEval.congr (PEval.call2 (k := fun v₁ v₂ => .ok (.bool (equalS v₁ v₂))) (lkP 28)
+            (procArity_libProc (i := 28) rfl)
+            (PEval.call1 (lkB .car) (by rfl) (PEval.var (by rfl)) fun _ _ => PApp.car)
+            (PEval.call1 (lkB .car) (by rfl) (PEval.var (by rfl)) fun _ _ => PApp.car)
+            fun v₁ v₂ h₁ h₂ => by cases h₁; cases h₂; exact iha _) rfl
+        refine PTail.cond testc (fun tv h ht => ?_) (fun tv h ht => ?_) (fun er h => by cases h)
+        · cases h
+          rw [truthy_bool] at ht
+          refine PTail.congr (PTail.call2 (k := fun v₁ v₂ => .ok (.bool (equalS v₁ v₂))) (lkP 28)
+            (procArity_libProc (i := 28) rfl)
+            (PEval.call1 (lkB .cdr) (by rfl) (PEval.var (by rfl)) fun _ _ => PApp.cdr)
+            (PEval.call1 (lkB .cdr) (by rfl) (PEval.var (by rfl)) fun _ _ => PApp.cdr)
+            fun v₁ v₂ h₁ h₂ => by cases h₁; cases h₂; exact ihd _) ?_
+          simp [equalS, ht, cdrS, Except.bind]
+        · cases h
+          rw [truthy_bool] at ht
+          refine PTail.congr (lit _ _ ρ false) ?_
+          simp [equalS, ht]
+      | _ => simp [isPair] at ht
+    · cases h
+      rw [truthy_bool] at ht
+      refine PTail.congr (lit _ _ ρ false) ?_
+      cases y <;> first | rfl | simp [isPair] at ht
+  | _ =>
+    intro y
+    refine (atom _ y rfl).congr ?_
+    simp [equalS]
+
+theorem replicate_toNat_succ {k : Int} (hk : 0 < k) (fill : Value) :
+    makeListS k fill = .pair fill (makeListS (k - 1) fill) := by
+  have h : k.toNat = (k - 1).toNat + 1 := by omega
+  unfold makeListS; rw [h, List.replicate_succ]; rfl
+
+/-- `(make-list k fill)` -/
+theorem papp_make_list (fill : Value) (n : Nat) : ∀ (k : Int), k.toNat = n → k ≤ 2147483647 →
+    PApp b (libProc "make-list" b) [.num (.int k), fill] (.ok (makeListS k fill)) := by
+  have test : ∀ (k : Int) ρ, PEval b ρ (paramDefs ⟨["k", "fill"], none⟩ [.num (.int k), fill])
+      (ca ">" [sy "k", pr (.int 0)]) (.ok (.bool (decide (k > 0)))) := fun k ρ =>
+    PEval.congr (PEval.call2 (k := fun _ _ => .ok (.bool (decide (k > 0)))) (lkB .gt) (by rfl) (PEval.var (by rfl))
+      (PEval.prim (by rfl)) fun v₁ v₂ h₁ h₂ => by cases h₁; cases h₂; exact PApp.gt_int) rfl
+  induction n with
+  | zero =>
+    intro k hk _
+    have hk0 : k ≤ 0 := by omega
+    rw [libProc_make_list]
+    refine PApp.closure (by rfl) fun ρ => ?_
+    refine PTail.cond (test k ρ) (fun tv h ht => ?_) (fun tv h _ => ?_) (fun er h => by cases h)
+    · cases h
+      rw [truthy_bool] at ht
+      have : k > 0 := by simpa using ht
+      omega
+    · refine PTail.congr (PTail.value (by intros; simp) (by intros; simp) PEval.nil) ?_
+      rw [makeListS_nonpos k fill hk0]
+  | succ n ih =>
+    intro k hk hle
+    have hpos : 0 < k := by omega
+    rw [libProc_make_list]
+    refine PApp.closure (by rfl) fun ρ => ?_
+    refine PTail.cond (test k ρ) (fun tv h _ => ?_) (fun tv h ht => ?_) (fun er h => by cases h)
+    · refine PTail.congr (PTail.call2 (k := fun v₁ v₂ => .ok (.pair v₁ v₂)) (lkB .cons) (by rfl) (PEval.var (by rfl))
+        (PEval.call2 (k := fun _ v₂ => .ok (makeListS (k - 1) v₂)) (lkP 13) (procArity_libProc (i := 13) rfl)
+          (PEval.call2 (k := fun _ _ => .ok (.num (.int (k - 1)))) (lkB .sub) (by rfl) (PEval.var (by rfl))
+            (PEval.prim (by rfl)) fun v₁ v₂ h₁ h₂ => by
+              cases h₁; cases h₂
+              exact PApp.sub_int (by simp [fitsI32]; omega))
+          (PEval.var (by rfl))
+          fun v₁ v₂ h₁ h₂ => by cases h₁; cases h₂; exact ih (k - 1) (by omega) (by omega))
+        fun _ _ _ _ => PApp.cons) ?_
+      rw [replicate_toNat_succ hpos]; rfl
+    · cases h
+      rw [truthy_bool] at ht
+      have : ¬ k > 0 := by simpa using ht
+      omega
+
+end procs3
 
 /-! ## 8. a store with the library frame -/
 
